@@ -35,7 +35,7 @@ ASSUMPTIONS = [
     "probe bodies are deterministic; one-shot iterators are never placed directly under a cache",
     "reference interpreter used as cross-check only (disagreements are counted, reported under C05)",
 ]
-FLOORS = {"hits_compared": (400, 8000), "steps": (1500, 30000), "histories_with_hit_and_change": (80, 1500), "hostile_steps": (1200, 24000), "scalar_under_preset_section_steps": (14, 14), "templated_container_steps": (150, 150)}
+FLOORS = {"hits_compared": (400, 8000), "steps": (1500, 30000), "histories_with_hit_and_change": (80, 1500), "hostile_steps": (1200, 24000), "scalar_under_preset_section_steps": (14, 14), "templated_container_steps": (150, 150), "dataset_class_consumer_steps": (700, 14000)}
 COVER = {"kinds_under_cache_with_hits": ["opt", "switch", "case", "coalesce", "bind", "map", "tmpl", "with", "apply", "list", "ds"]}
 SHARDS_QUICK = 4
 # domains only in the directed families: an out-of-domain value inside a bind/case dispatch of a skipped
@@ -258,8 +258,45 @@ def templated_containers(ctx):
             ctx.count("templated_container_steps", ctx.counters.get("steps", 0) - n0)
 
 
+def dataset_class_consumers(ctx, i):
+    """A memoising dataset whose argument is a dataset class (generated as in C19: inherited, dotted, dispatching,
+    derived, privately named members): over a history of dictionaries the stored value is only returned for a
+    dictionary under which every member evaluates to the same thing."""
+    from labrea import dataset
+
+    from .c19 import gen_options, make_class
+
+    r = case_rng(ctx, ("dsclass", i))
+    cls, members, _raw = make_class(r)
+    relevant = sorted({k for _, ks in members.values() for k in ks})
+
+    def body(c=cls):
+        return tuple((name, getattr(c, name)) for name in sorted(members))
+
+    consumer = dataset(body)
+    base = gen_options(r, relevant)
+    trail = []
+    for step in range(7):
+        o = copy.deepcopy(r.choice([base] + [t for t in trail]))
+        if step and relevant:
+            k = r.choice(relevant)
+            o = U.set_path(o, k, r.choice([0, 1, "a", "changed", None])) if r.random() < 0.8 or not U.present(k, o) else U.del_path(o, k)
+        trail.append(o)
+        warm = observe(consumer.evaluate, copy.deepcopy(o))
+        with labrea.cache.disabled():
+            unc = observe(consumer.evaluate, copy.deepcopy(o))
+        ctx.evaluations += 2
+        ctx.count("dataset_class_consumer_steps")
+        if not same_outcome(warm, unc):
+            ctx.violation("warm-vs-uncached", f"step {step}: a cached dataset consuming a dataset class gives {short(warm)} but caching switched off gives {short(unc)}",
+                          {"family": "dataset-class-consumer", "case": i, "shard": ctx.shard, "shards": ctx.shards, "members": {k: list(v) for k, v in members.items()}, "history": trail})
+            return
+
+
 def run(ctx):
     rng = ctx.rng
+    for i in range(ctx.n(160, 3200)):
+        dataset_class_consumers(ctx, i)
     if ctx.shard == 0:
         known_finding_reproducers(ctx)
         scalar_under_preset_section(ctx)
@@ -295,6 +332,10 @@ def run(ctx):
 
 def replay(ctx, rep):
     w = rep["witness"]
+    if w.get("family") == "dataset-class-consumer":
+        ctx.shard, ctx.shards = w.get("shard", 0), w.get("shards", 1)
+        dataset_class_consumers(ctx, w["case"])
+        return
     if w.get("family") == "scalar-under-preset-section":
         scalar_under_preset_section(ctx)
         return
